@@ -4,7 +4,6 @@ GaphQL types related to introspection queries.
 
 These should be present in all spec compliant servers.
 """
-import json
 from typing import Optional, Union
 
 from .scalars import Boolean, String
@@ -26,8 +25,15 @@ from .types import (
 )
 
 
+def _resolve_attribute(root, _context, info, **_args):
+    # The introspection types read plain attributes of the schema objects and
+    # do not go through the (user replaceable) schema default resolver.
+    return getattr(root, info.field_definition.python_name, None)
+
+
 __Schema__ = ObjectType(
     "__Schema",
+    default_resolver=_resolve_attribute,
     description=(
         "A GraphQL Schema defines the capabilities of a GraphQL server. "
         "It exposes all available types and directives on the server, "
@@ -83,6 +89,7 @@ __Schema__ = ObjectType(
 
 __Directive__ = ObjectType(
     "__Directive",
+    default_resolver=_resolve_attribute,
     description=(
         "A Directive provides a way to describe alternate runtime execution "
         "and type validation behavior in a GraphQL document."
@@ -207,6 +214,7 @@ def _resolve_type_kind(type_, *_):
 
 __Type__ = ObjectType(
     "__Type",
+    default_resolver=_resolve_attribute,
     description=(
         "The fundamental unit of any GraphQL Schema is the type. There are "
         "many kinds of types in GraphQL as represented by the `__TypeKind` "
@@ -289,6 +297,7 @@ __Type__ = ObjectType(
 
 __EnumValue__ = ObjectType(
     "__EnumValue",
+    default_resolver=_resolve_attribute,
     description=(
         "One possible value for a given Enum. Enum values are unique values, "
         "not a placeholder for a string or numeric value. However an Enum "
@@ -328,6 +337,7 @@ def _format_default_value(
 
 __InputValue__ = ObjectType(
     "__InputValue",
+    default_resolver=_resolve_attribute,
     description=(
         "Arguments provided to Fields or Directives and the input fields "
         "of an InputObject are represented as Input Values which describe "
@@ -352,6 +362,7 @@ __InputValue__ = ObjectType(
 
 __Field__ = ObjectType(
     "__Field",
+    default_resolver=_resolve_attribute,
     description=(
         "Object and Interface types are described by a list of Fields, "
         "each of which has a name, potentially a list of arguments, and "
